@@ -282,6 +282,9 @@ func runC08(ctx *core.Ctx, idx int) *core.Result {
 	if idx%10 == 9 {
 		c08Backtracking(ctx, res, r)
 	}
+	if idx%10 == 4 {
+		c08DeepNesting(ctx, res, r)
+	}
 	res.Sample(map[string]any{"seed_patch": core.Trunc(seed, 300), "mutations_per_case": c08PerCase})
 	return res
 }
@@ -349,6 +352,53 @@ func c08Backtracking(ctx *core.Ctx, res *core.Result, r *rand.Rand) {
 	res.Sig("backtracking", k, n/10, stmts, elemKind)
 	if cc := cr.CrashClass(); cc != "" {
 		res.Violate("C08/"+cc+"/elision-search", fmt.Sprintf("%d elisions against a list of %d similar elements (statements=%v, element kind %d): %s", k, n, stmts, elemKind, core.Trunc(string(cr.Stderr), 600)), map[string]string{"p.patch": pt, "in.go": src})
+	}
+}
+
+// c08DeepNesting: a one-line rewrite at the bottom of deeply nested blocks (if ladders, nested subtests with statements
+// before and after each level). Finding what changed must not cost more with every level of nesting.
+func c08DeepNesting(ctx *core.Ctx, res *core.Result, r *rand.Rand) {
+	n := 10 + r.Intn(14)
+	shape := r.Intn(3)
+	var sb strings.Builder
+	sb.WriteString("package p\n\nfunc f(t *T) {\n")
+	for i := 0; i < n; i++ {
+		ind := strings.Repeat("\t", i+1)
+		fmt.Fprintf(&sb, "%spre%d()\n", ind, i)
+		switch shape {
+		case 0:
+			fmt.Fprintf(&sb, "%sif c%d {\n", ind, i)
+		case 1:
+			fmt.Fprintf(&sb, "%st.Run(\"case%d\", func(t *T) {\n", ind, i)
+		default:
+			fmt.Fprintf(&sb, "%sfor i%d := range xs {\n", ind, i)
+		}
+	}
+	fmt.Fprintf(&sb, "%sfoo(1)\n", strings.Repeat("\t", n+1))
+	for i := n - 1; i >= 0; i-- {
+		ind := strings.Repeat("\t", i+1)
+		if shape == 1 {
+			fmt.Fprintf(&sb, "%s})\n%spost%d()\n", ind, ind, i)
+		} else {
+			fmt.Fprintf(&sb, "%s}\n%spost%d()\n", ind, ind, i)
+		}
+	}
+	sb.WriteString("}\n")
+	pt := "@@\nvar x expression\n@@\n-foo(x)\n+bar(x, 2)\n"
+	dir, _ := os.MkdirTemp(ctx.Tmp, "c08nest")
+	defer os.RemoveAll(dir)
+	os.WriteFile(filepath.Join(dir, "m.patch"), []byte(pt), 0o644)
+	os.WriteFile(filepath.Join(dir, "t.go"), []byte(sb.String()), 0o644)
+	cr := ctx.RunCLI(core.CLIOpts{Dir: dir, Args: []string{"-p", "m.patch", "t.go"}})
+	res.Evals++
+	res.Ob("deep-nesting-rewrites", 1)
+	res.Sig("deep-nesting", n, shape)
+	if cc := cr.CrashClass(); cc != "" {
+		res.Violate("C08/"+cc+"/deep-nesting", fmt.Sprintf("a rewrite under %d nested blocks (shape %d): %s", n, shape, core.Trunc(string(cr.Stderr), 600)), map[string]string{"p.patch": pt, "in.go": sb.String()})
+		return
+	}
+	if b, _ := os.ReadFile(filepath.Join(dir, "t.go")); cr.Exit != 0 || !strings.Contains(string(b), "bar(1, 2)") {
+		res.Violate("C08/not-rewritten/deep-nesting", fmt.Sprintf("exit %d: %s", cr.Exit, core.Trunc(string(cr.Stderr), 300)), map[string]string{"p.patch": pt, "in.go": sb.String()})
 	}
 }
 
